@@ -240,6 +240,11 @@ def check_cli(O, S, leafmap, leafsyn, algo, policy, costs):
     """None or (subcheck, detail, costs)"""
     onames = {v: (f"s{leafmap[v]}_{v}" if not O.children[v] else f"n{v}") for v in range(O.n)}
     snames = A.default_names(S, "s")
+    partial = len(O.internal) >= 2 and sum(leafmap.values()) % 2 == 1
+    if partial:
+        # a partially labelled object tree: the LAST ancestor (pre-order) already carries the automatic-looking name O0, the
+        # others carry none and are named by the tool; the written names are then read back through the written tree
+        onames = {v: (onames[v] if not O.children[v] else ("O0" if v == O.internal[-1] else "")) for v in range(O.n)}
     data = cli_input_json(O, S, leafmap, leafsyn, onames, snames)
     argv = ["reconcile", "--solutions", policy.lower()] + cli_driver.cost_args(costs) + [algo]
     status, out, err, _ = cli_driver.run_cli(argv, json.dumps(data))
@@ -253,6 +258,19 @@ def check_cli(O, S, leafmap, leafsyn, algo, policy, costs):
     sid = {n: v for v, n in snames.items()}
     for ln in lines:
         obj = json.loads(ln)
+        if partial:
+            from ete3 import Tree as _Tree
+            written = _Tree(obj["input"]["object_tree"], format=1)
+            by_clade = {frozenset(onames[x] for x in O.leaves_under(v)): v for v in range(O.n)}
+            oid = {}
+            for node in written.traverse():
+                v = by_clade.get(frozenset(l.name for l in node.iter_leaves()))
+                if v is None or not node.name or node.name in oid:
+                    return ("cli_names", f"written object tree {obj['input']['object_tree']} has a missing, repeated or foreign node name",
+                            costs)
+                oid[node.name] = v
+            if len(obj["object_species"]) != O.n:
+                return ("cli_names", f"object_species has {len(obj['object_species'])} entries for {O.n} object nodes: {ln[:200]}", costs)
         m = {oid[k]: sid[x] for k, x in obj["object_species"].items()}
         if "syntenies" in obj:
             is_ord = obj["ordered"]
